@@ -601,7 +601,10 @@ class World:
         m.rel = f"<{modname}>"
         m.globals["__name__"] = modname
         self.mods[modname] = m
-        self.interp.exec_module(m, ast.parse(text), strict=True)
+        tree = _PARSED.get(text)
+        if tree is None:
+            tree = _PARSED[text] = ast.parse(text)
+        self.interp.exec_module(m, tree, strict=True)
         return m
 
     def get(self, dotted: str):
@@ -710,6 +713,9 @@ class World:
             if not log:
                 return
             prefix = [c for _, _, c in log[:-1]] + [log[-1][2] + 1]
+
+
+_PARSED: dict = {}
 
 
 def _deepcopy_state(v, memo=None):
